@@ -99,10 +99,20 @@ pub async fn run(seed: u64, sched: Rc<Sched>, keep_log: bool) -> (CaseResult, Ve
     for (req, number) in numbers.iter().copied().enumerate() {
         let cancel = if rng.gen_range(0..100) < 25 { Some(rng.gen_range(1..300i64)) } else { None };
         let yields = rng.gen_range(0..6);
-        let (queue, hist, root) = (queue.clone(), hist.clone(), root.clone());
+        // Some requests are only issued during the fair suffix, when every peer sits idle in
+        // `accept_block`: that is where a lost wake-up shows.
+        let late = rng.gen_range(0..100) < 30;
+        let late_ms = rng.gen_range(1..80i64);
+        let (queue, hist, root, fair) = (queue.clone(), hist.clone(), root.clone(), fair.clone());
         reqs.push(gtokio::spawn(async move {
             for _ in 0..yields {
                 sched_point().await;
+            }
+            if late {
+                while !fair.load(Ordering::SeqCst) {
+                    let _ = root.sleep(time::Duration::milliseconds(7)).await;
+                }
+                let _ = root.sleep(time::Duration::milliseconds(late_ms)).await;
             }
             hist.rec(Ev::Request { req, number, cancel_after_ms: cancel });
             let cctx;
